@@ -63,7 +63,7 @@ def project(blk, name, meta):
         return send_opcodes(blk)
     return ()
 def oracle(name, ib, mb, meta):
-    fails = []; mtu = 1500; own = OWN0; mapper = None; faulty = False
+    fails = []; mtu = 1500; own = OWN0; mapper = None; faulty = False; paths = set()
     for i, b in enumerate(ib):
         if b.op.startswith('failsend'): faulty = 'clear' not in b.op
         if b.op.startswith('cfg 0'):
@@ -78,6 +78,8 @@ def oracle(name, ib, mb, meta):
             if d['opc'] == 8: mapper = None
             elif d['opc'] == 0 and mapper is None: mapper = (d['rsrc'], d['esrc'])
             elif d['opc'] in (2, 6, 0x0B) and (mapper is None or (mapper != '?' and mapper[0] != d['rsrc'])): mapper = '?'
+            if mapper not in (None, '?') and d['rsrc'] == mapper[0]: paths.add(d['esrc'])    # Ethernet addresses the mapper's frames came from
+            if mapper is None: paths = set()
         if d['tos'] != 0 or d['opc'] != 2 or mtu < 0 or faulty or mapper == '?': continue
         cap = (mtu - 34) // 14
         buf = (fr + bytes([fill]) * mtu)[:mtu]
@@ -104,8 +106,8 @@ def oracle(name, ib, mb, meta):
         want.append(('ack', mapper[1], mapper[0], own, d['seq'], 32))
         got = [shape(a) for a in acts]
         # "addressed to the mapper": real destination = the mapper; at Ethernet level the address the session was opened
-        # from, the one this Emit came from, or the mapper's own are all the mapper
-        if got and got[-1][0] == 'ack' and got[-1][1] in (mapper[1], d['esrc'], mapper[0]): got[-1] = ('ack', mapper[1]) + got[-1][2:]
+        # from, the one this Emit came from, any other one a frame of the mapper came from in this session, or the mapper's own are all the mapper
+        if got and got[-1][0] == 'ack' and (got[-1][1] in (mapper[1], d['esrc'], mapper[0]) or got[-1][1] in paths): got[-1] = ('ack', mapper[1]) + got[-1][2:]
         if got != want:
             k = next((j for j in range(min(len(got), len(want))) if got[j] != want[j]), min(len(got), len(want)))
             fmt = lambda t: tuple(v.hex() if isinstance(v, bytes) else v for v in t)
